@@ -29,7 +29,8 @@ BRANCHES = [
     "chb.call.eval_cost-reset-after-use", "chb.timer_flags-without-HEARTBEAT:empty",
     "chb.timer_flags-without-HEARTBEAT:list-kept", "backend.start-up-call", "backend.further-passes-after-error",
     "backend.tick-served-right-after-an-abandoned-round", "backend.pass-limit", "cotick",
-    "call_out.dispatch-after-the-round", "call_out.error-after-a-round-with-beats",
+    "call_out.dispatch-after-the-round", "call_out.error-after-a-round-with-beats", "own-set_heart_beat",
+    "shb.destructed-return:own-call-after-self-destruct",
 ]
 
 
@@ -80,6 +81,9 @@ class C11(Prop):
         "NV.C11.sim_coLoop",
         "NV.C11.sim_coDispatch",
         "NV.C11.gen_chbTail_eq",
+        "NV.C11.sim_runDead",
+        "NV.C11.destructed_never_enabled",
+        "NV.C11.oracle_own_set_heart_beat_of_destructed",
         "NV.C11.error_outside_heart_beat_switches_off_nobody",
         "NV.C11.oracle_error_outside_heart_beat",
         "NV.C11.sim_hookStep",
@@ -411,6 +415,18 @@ class C11(Prop):
         mk("callout-served-in-second-pass", pop3 + ["script o3 hb:0 flag;err", "cotick o4:err;hbs o2:hbs", "do o0 hbs", "tick"])
         mk("callout-with-flags-off-and-dead-object", pop3 + ["tflags 0", "cotick o2:hbs;err o9:hbs", "do o0 dest,o3", "cotick o3:hbs",
                                                              "tflags 2", "cotick o4:dest,o4;err", "do o0 hbs", "tick"])
+        # --- set_heart_beat by an object that has just destructed itself (seeded change C11-7): refused, the object is never
+        #     on the list again - from its heart_beat (first / middle / last entry), from a call_out callback, with an
+        #     error afterwards, with several calls
+        for pos in (2, 3, 4):
+            mk("enable-after-self-destruct-in-beat-o%d" % pos, pop3 + ["script o%d hb:1 dest,o%d;zshb,1;hbs" % (pos, pos), "tick", "tick",
+                                                                       "do o0 hbs", "tick", "tick", "do o0 hbs"])
+        mk("enable-after-self-destruct-several-calls", pop3 + ["script o3 hb:0 shb,o3,0;dest,o3;zshb,2;zshb,0;zshb,40000;zshb,-1;err", "tick",
+                                                               "do o0 hbs", "tick", "do o0 hbs"])
+        mk("enable-after-self-destruct-in-callout", pop3 + ["do o0 clone,o5,0,0", "cotick o5:dest,o5;zshb,1 o3:dest,o3;zshb,3;err", "do o0 hbs",
+                                                            "tick", "do o0 hbs", "tick"])
+        mk("enable-after-carrier-destructed-us", carrier + ["script o3 hb:0 dest,o2;zshb,1", "do o0 shb,o3,1", "tick", "do o0 hbs", "tick"])
+        mk("own-set_heart_beat-alive", pop3 + ["script o3 hb:0 zshb,0;zshb,2;hbs", "do o2 zshb,3", "do o0 hbs", "tick", "tick", "tick"])
         mk("empty", ["tick", "do o0 hbs", "tick"])
         mk("dead-and-unknown", ["do o0 clone,o2,0,1", "do o0 dest,o2", "do o0 dest,o2", "do o0 shb,o2,1", "do o0 q,o9",
                                 "do o2 hbs", "do o9 hbs", "do o0 dest,o0", "do o0 dest,o1", "do o0 clone,o2,0,1", "tick"])
@@ -429,7 +445,7 @@ class C11(Prop):
         ops = []
         for _ in range(n if n is not None else rng.weighted([(1, 6), (2, 4), (3, 2), (5, 1)])):
             k = rng.weighted([("shb", 12), ("q", 2), ("dest", 4), ("clone", 2), ("err", 2 if allow_err else 0),
-                              ("flag", 1), ("hbs", 2), ("take", 1), ("cerr", 2), ("reload", 3), ("living", 1), ("burn", 1), ("rp", 1), ("mv", 1)])
+                              ("flag", 1), ("hbs", 2), ("take", 1), ("cerr", 2), ("reload", 3), ("living", 1), ("burn", 1), ("rp", 1), ("mv", 1), ("zshb", 2)])
             t = rng.choice(ids["all"])
             if k == "shb":
                 ops.append("shb,o%d,%d" % (t, rng.weighted(INTERVALS)))
@@ -437,12 +453,18 @@ class C11(Prop):
                 ops.append("q,o%d" % t)
             elif k == "dest":
                 ops.append("dest,o%d" % t)
+                if rng.chance(1, 3):
+                    # the function runs on after destruct(this_object()): its own set_heart_beat must be refused
+                    for _ in range(rng.range(1, 2)):
+                        ops.append("zshb,%d" % rng.weighted([(1, 6), (2, 2), (0, 1), (-1, 1), (40000, 1)]))
                 if allow_err and rng.chance(1, 4):
                     ops.append("err")      # reaches error_handler even when the object has just destructed itself
             elif k == "take":
                 ops.append("take,o%d" % t)
             elif k == "mv":
                 ops.append("mv,o%d" % t)
+            elif k == "zshb":
+                ops.append("zshb,%d" % rng.weighted(INTERVALS))
             elif k == "reload":
                 ops.append("reload,o%d,%d" % (t, rng.weighted([(1, 6), (2, 3), (0, 2), (3, 1), (-1, 1), (40000, 1)])))
             elif k == "clone":
